@@ -109,7 +109,9 @@ class HippoClientProtocol(asyncio.DatagramProtocol):
                 self.session.message_handler.handle(message)
         except:
             LOG.exception("Failed in region message handler")
-        region.message_handler.handle(message)
+        # Resend suppression applies to region-level subscribers too
+        if should_handle:
+            region.message_handler.handle(message)
 
 
 class HippoClientRegion(BaseClientRegion):
